@@ -20,7 +20,13 @@ SixDot == 10240..10303                          \* U+2800..U+283F
 Markers == {63742, 63741, 63738, 57354} \cup (57344..63743)   \* the library's private-use markers (all of the BMP private-use area)
 Printable(c) == c >= 32 /\ c # 127
 Reason(e) ==
-  IF e.res # "ok" THEN (IF e.visible = 1 THEN "no-braille-" \o e.res ELSE "ok")
+  IF e.kind = "cellhl" THEN      \* get_braille(id of the expression) under a highlight style: cells only (6- or 8-dot)
+       (IF e.res # "ok" THEN "ok"      \* success for ids of the expression is C20's clause
+        ELSE IF \E c \in ToSet(e.out) : c \notin Cells /\ c \notin ToSet(e.undef) THEN "non-braille-character-in-highlighted-output" ELSE "ok")
+  ELSE IF e.kind = "texthl" THEN      \* text codes: nothing but printable ASCII and the characters of the unhighlighted output
+       (IF e.res # "ok" THEN "ok"
+        ELSE IF \E c \in ToSet(e.out) : c \notin 32..126 /\ c \notin ToSet(e.off) /\ c \notin ToSet(e.undef) THEN "marker-in-highlighted-text-code-output" ELSE "ok")
+  ELSE IF e.res # "ok" THEN (IF e.visible = 1 THEN "no-braille-" \o e.res ELSE "ok")
   ELSE IF e.visible = 1 /\ e.out = <<>> THEN "empty-braille-for-visible-content"
   ELSE IF e.kind = "cell" /\ \E c \in ToSet(e.out) : c \notin Cells /\ c \notin ToSet(e.undef) THEN "non-braille-character-in-output"
   ELSE IF e.kind = "cell" /\ \E c \in ToSet(e.out) : c \in Cells /\ c \notin SixDot /\ c \notin ToSet(e.allowed8) THEN "dots-7-8-without-highlight"
